@@ -213,7 +213,16 @@ func (store *sqlStore) setSQLStatements() {
 // Reset deletes the store records and sets the seqnums back to 1.
 func (store *sqlStore) Reset() error {
 	s := store.sessionID
-	_, err := store.db.Exec(sqlString(store.sqlDeleteMessages, store.placeholder),
+
+	// Both statements or neither: with the messages gone and the old counters left in the database (or
+	// the other way round) the store would be neither reset nor what it was.
+	tx, err := store.db.Begin()
+	if err != nil {
+		return err
+	}
+	defer tx.Rollback()
+
+	_, err = tx.Exec(sqlString(store.sqlDeleteMessages, store.placeholder),
 		s.BeginString, s.Qualifier,
 		s.SenderCompID, s.SenderSubID, s.SenderLocationID,
 		s.TargetCompID, s.TargetSubID, s.TargetLocationID)
@@ -221,24 +230,32 @@ func (store *sqlStore) Reset() error {
 		return err
 	}
 
-	if err = store.cache.Reset(); err != nil {
-		return err
-	}
-
-	_, err = store.db.Exec(sqlString(store.sqlUpdateSession, store.placeholder),
-		store.cache.CreationTime(), store.cache.NextTargetMsgSeqNum(), store.cache.NextSenderMsgSeqNum(),
+	creationTime := time.Now()
+	_, err = tx.Exec(sqlString(store.sqlUpdateSession, store.placeholder),
+		creationTime, 1, 1,
 		s.BeginString, s.Qualifier,
 		s.SenderCompID, s.SenderSubID, s.SenderLocationID,
 		s.TargetCompID, s.TargetSubID, s.TargetLocationID)
+	if err != nil {
+		return err
+	}
 
-	return err
+	if err = tx.Commit(); err != nil {
+		return err
+	}
+
+	if err = store.cache.Reset(); err != nil {
+		return err
+	}
+	store.cache.SetCreationTime(creationTime)
+
+	return nil
 }
 
 // Refresh reloads the store from the database.
 func (store *sqlStore) Refresh() error {
-	if err := store.cache.Reset(); err != nil {
-		return err
-	}
+	// The cached values are replaced by what the database says only once the database has said it: a
+	// query that fails leaves them as they are.
 	return store.populateCache()
 }
 
@@ -271,6 +288,9 @@ func (store *sqlStore) populateCache() error {
 	}
 
 	// session record not found, create it
+	if err = store.cache.Reset(); err != nil {
+		return err
+	}
 	_, err = store.db.Exec(sqlString(store.sqlInsertSession, store.placeholder),
 		store.cache.CreationTime(),
 		store.cache.NextTargetMsgSeqNum(),
